@@ -1470,8 +1470,21 @@ def stream_render(run, rng, n):
     docs = []
     for c in corpus('render'):
         docs.append((c['case'], c['exp']))
+    # a quarter of the generated documents get a page bleed (own generator: the documents themselves are unchanged):
+    # links, destinations and bookmarks are placed relative to the page box, so nothing the judge expects moves -
+    # a matrix built from the bleed box height (page_height of generate_pdf) shifts every rectangle
+    brng = random.Random(run.seed * 7919 + 1818)
+    nbleed = 0
     for i in range(n):
-        docs.append(gen_doc(rng, ascii_ids=rng.random() < 0.6))
+        case, exp = gen_doc(rng, ascii_ids=rng.random() < 0.6)
+        if brng.random() < 0.25 and case['html'].count('@page{size:200px 100px;margin:0}') == 1:
+            sides = [brng.choice([0, 3, 7, 11, 20]) for _ in range(4)]
+            if any(sides):
+                case = dict(case, html=case['html'].replace(
+                    '@page{size:200px 100px;margin:0}',
+                    '@page{size:200px 100px;margin:0;bleed:%dpx %dpx %dpx %dpx}' % tuple(sides), 1))
+                nbleed += 1
+        docs.append((case, exp))
     # regression witness of F47 (fixed in 484a69a): ASCII and non-ASCII ids mixed, the name tree must be byte-sorted
     docs.append(probe_nonascii_ids())
     outs = common.run_impl('impl_c18', 'render_doc', [d[0] for d in docs], limit=90, chunksize=2)
@@ -1541,7 +1554,7 @@ def stream_render(run, rng, n):
     except RuntimeError as exc:
         run.oblige('corr:dests-order', False, str(exc))
     run.count('render-monitor', len(docs), [('doc', i) for i in range(len(docs))], samples=[docs[-1][0]['html'][:500]])
-    run.stream_info('render-monitor', bookmarks=nb, bookmarked_boxes_split_over_pages=split, links=nl, anchors=na,
+    run.stream_info('render-monitor', documents_with_page_bleed=nbleed, bookmarks=nb, bookmarked_boxes_split_over_pages=split, links=nl, anchors=na,
                     split_containers_with_bookmarks_between_fragments=nsplitc, pseudo_element_bookmarks=npseudo,
                     links_under_transform=ntl, links_under_nested_transforms=nnest,
                     internal_links_spelled_as_document_url=nselfurl, internal_links_percent_encoded=npct,
@@ -1573,9 +1586,17 @@ def check(run):
     rng = random.Random(run.seed * 7919 + 18)
     thorough = run.tier == 'thorough'
     common.prove(run, 'C18', ['model/C18Bookmarks.vo', 'model/C18Outline.vo', 'model/C18Links.vo', 'model/C18Date.vo',
-                              'model/C18Aabb.vo', 'model/C18Href.vo', 'model/C18Names.vo'])
+                              'model/C18Aabb.vo', 'model/C18Href.vo', 'model/C18Names.vo', 'model/C18PageMatrix.vo',
+                              'proofs/C18_gen_aabb.vo', 'proofs/C18_gen_page_matrix.vo'])
     run.trusted += ['Coq 8.16.1 kernel (coqc); vm_compute for the cases.v evaluation',
-                    'hand models coq/model/C18*.v, tied to /repo only by the direct-call correspondence streams',
+                    'hand models coq/model/C18*.v, tied to /repo by the direct-call correspondence streams; '
+                    'C18Aabb (rectangle_aabb, Matrix.transform_point / __matmul__ / constructor) and C18PageMatrix (the '
+                    'per-page matrix, MediaBox and TrimBox statements of generate_pdf) also by the translator: the '
+                    'C18_source_* theorems are about the bodies regenerated from /repo (tools/py2coq.py, interpreter '
+                    'coq/base/Py.v; methods are resolved by name: the receiver of .transform_point / @ is trusted to be '
+                    'a Matrix; the rest of the page loop of generate_pdf, which hands matrix / left / top / right / '
+                    'bottom to add_links and to the page dictionary, is outside the translated slices - the '
+                    'translator only checks that it does not rebind them)',
                     'harness stubs (SimpleNamespace pages/boxes, pydyf.PDF), its reader of pydyf objects/strings, '
                     'and the Python judge of the render monitor (urllib.parse.urljoin for relative URLs)']
     run.assumptions += ['the regular expression W3C_DATE_RE is glue: exercised by the dates stream, not modelled',
